@@ -277,3 +277,35 @@ def cases_swt(rng, LL, sizes, Js=(1, 2, 3), modes=('periodization', 'periodic'))
                         exp = tuple(hs(y) if y.dim() == 5 else A4(y) for y in r)
                     out.append(Case(17, [MODES[mode], J], fb, [X], exp, dict(fn='SWTForward', Lr=Lr, Lc=Lc, H=H, W=W, J=J, mode=mode)))
     return out
+
+
+# ------------------------------------------------------------------ non-separable banks and the functional separable API
+def cases_nonsep(rng, LL, sizes, modes=('zero', 'symmetric', 'reflect', 'periodization'), NC=((1, 2),), two=False):
+    out = []
+    for (Ly, Lx) in LL:
+        hc0, hc1, hr0, hr1 = int_filter(rng, Ly), int_filter(rng, Ly), int_filter(rng, Lx), int_filter(rng, Lx)
+        if two:
+            hr0, hr1, Lx = hc0, hc1, Ly
+        filts = [hc0, hc1] if two else [hc0, hc1, hr0, hr1]
+        fl = [hc0, hc1, hr0, hr1]
+        for mode in modes:
+            mi = MODES[mode]
+            for (H, W) in sizes(Ly, Lx):
+                for (nb, C) in NC:
+                    X = rand_int(rng, (nb, C, H, W))
+                    meta = dict(Ly=Ly, Lx=Lx, H=H, W=W, mode=mode, NC=(nb, C), two=two)
+                    r = call(lambda: (A4(ll.afb2d_nonsep(T(X), [f.astype(float) for f in filts], mode=mode)),))
+                    out.append(Case(20, [mi], fl, [X], r, dict(fn='afb2d_nonsep', **meta)))
+                    # separable functional API on the same data: registered (reversed) filters, row pair first
+                    r2 = call(lambda: (A4(ll.afb2d(T(X), [f.astype(float) for f in filts], mode=mode)),))
+                    out.append(Case(18, [mi], [hr0[::-1], hr1[::-1], hc0[::-1], hc1[::-1]], [X], r2, dict(fn='afb2d', **meta)))
+                    if isinstance(r[0], str):
+                        continue
+                    Y = rand_int(rng, r[0].shape)          # (N, 4C, h, w) coefficients
+                    Y5 = Y.reshape(nb, C, 4, Y.shape[-2], Y.shape[-1])
+                    r3 = call(lambda: (A4(ll.sfb2d_nonsep(T(Y5), [f.astype(float) for f in filts], mode=mode)),))
+                    out.append(Case(21, [mi], fl, [Y], r3, dict(fn='sfb2d_nonsep', **meta)))
+                    bands = [np.ascontiguousarray(Y5[:, :, b]) for b in range(4)]
+                    r4 = call(lambda: (A4(ll.sfb2d(T(bands[0]), T(bands[1]), T(bands[2]), T(bands[3]), [f.astype(float) for f in filts], mode=mode)),))
+                    out.append(Case(19, [mi], [hr0, hr1, hc0, hc1], bands, r4, dict(fn='sfb2d', **meta)))
+    return out
